@@ -18,7 +18,8 @@ RULE = ("(shipped) the 16 shipped .itp files; (generated) topology texts: option
         "repeated with probability 1/2, content lines valid for the typed sections (moleculetype, atoms, bonds, "
         "constraints, pairs) and free tokens elsewhere, each with no / one / empty / blank-only / multiple trailing "
         "comments (comment text printable ASCII, may start with '#'), comment-only, blank and preprocessor lines, "
-        "tabs, last line with or without newline. Non-trivial = a repeated section name or a content line with an "
+        "tabs, last line with or without newline; read from a path or an open file, written to a fresh path, over the "
+        "file it was read from, or over a longer existing file. Non-trivial = a repeated section name or a content line with an "
         "empty or multiple trailing comment. Distinct = sha1 of the text.")
 ASSUMPTIONS = [
     "ASCII files; preprocessor lines start in column 0, or are indented inside sections whose lines the library does "
@@ -149,7 +150,7 @@ def text_case(draw):
     text = "\n".join(out)
     if draw(st.booleans()) or not out[-1].strip():
         text += "\n"
-    return {"text": text, "molecule": molecule, "stats": sorted(stats)}
+    return {"text": text, "molecule": molecule, "stats": sorted(stats), "mode": draw(st.sampled_from(MODES))}
 
 
 def structure(text):
@@ -174,13 +175,27 @@ def describe_diff(a, b):
     return "equal"
 
 
-def roundtrip(text_path, is_molecule, label):
+MODES = ["separate", "separate", "inplace", "fileobj", "over-longer"]
+
+
+def roundtrip(text_path, is_molecule, label, mode="separate"):
     with open(text_path) as f:
         original = f.read()
     s0 = structure(original)
     out1 = env.fresh_path(".itp")
     out2 = env.fresh_path(".itp")
-    itp = lib("read", ItpFile, text_path)
+    if mode == "fileobj":                       # "fitp : str or TextIOWrapper"
+        itp = lib("read", ItpFile, open(text_path, encoding="utf-8"))
+    else:
+        itp = lib("read", ItpFile, text_path)
+    if mode == "inplace":                       # written back over the file it was read from
+        keep = env.fresh_path(".itp")
+        with open(keep, "w") as f:
+            f.write(original)
+        out1, text_path = text_path, keep
+    elif mode == "over-longer":                 # the output path already holds a longer file
+        with open(out1, "w") as f:
+            f.write(original + "\n[ bonds ]\n" + "1 2 1 0.1 1000 ; left over\n" * 50)
     lib("write", itp.write, out1)
     del itp
     with open(out1) as f:
@@ -239,16 +254,17 @@ def check_text(case):
     path = env.fresh_path(".itp")
     with open(path, "w") as f:
         f.write(case["text"])
-    s0 = roundtrip(path, case["molecule"], "generated file")
+    mode = case.get("mode", "separate")
+    s0 = roundtrip(path, case["molecule"], "generated file" + ("" if mode == "separate" else " (%s)" % mode), mode)
     stats = set(case["stats"])
     nt = bool(stats & {"repeat", "empty-comment", "multi-comment"})
-    return {"nontrivial": nt, "classes": ["molecule" if case["molecule"] else "fragment"] + sorted(stats),
+    return {"nontrivial": nt, "classes": ["molecule" if case["molecule"] else "fragment", "mode:" + mode] + sorted(stats),
             "sample": {"text": case["text"][:700], "stats": case["stats"]}}
 
 
 def shipped_cases(tier, seed):
     names = sorted(f for f in os.listdir(env.DATA) if f.endswith(".itp"))
-    return [{"file": nm} for nm in names], True
+    return [{"file": nm, "mode": m} for nm in names for m in ("separate", "inplace", "fileobj", "over-longer")], True
 
 
 def check_shipped(case):
@@ -256,7 +272,7 @@ def check_shipped(case):
     path = env.fresh_path(".itp")
     with open(src) as f, open(path, "w") as g:
         g.write(f.read())
-    s0 = roundtrip(path, True, case["file"])
+    s0 = roundtrip(path, True, case["file"], case.get("mode", "separate"))
     names = []
     import re
     with open(src) as f:
